@@ -253,6 +253,11 @@ func TestCheck(t *testing.T) {
 	r := mc.New("C14", "exploration")
 	methodLists := [][]string{nil, {"GET"}, {"GET", "POST"}}
 	if f := mc.ReplayFile(); f != "" {
+		var rr reloadReplay
+		if err := mc.LoadReplay(f, &rr); err == nil && len(rr.Indices) > 0 {
+			replayReload(t, rr)
+			return
+		}
 		var rp replay
 		if err := mc.LoadReplay(f, &rp); err != nil {
 			t.Fatal(err)
@@ -293,7 +298,7 @@ func TestCheck(t *testing.T) {
 		return
 	}
 	ps := patterns()
-	r.Rule = fmt.Sprintf("%d URL patterns (hosts with dots, host/path parameters incl. a dotted name, trailing wildcard, literals containing each of + ? ( ) [ ] | $ ^ \\ {n}) x method lists {none,[GET],[GET,POST]} (flows) / each declared method (policies) x every instantiation of the pattern (parameter values x, x.y, a+b, 7; wildcard tails '', /t, /t/u.v) x 7 request methods; the engine's verdict is the real FilterTree / EndpointPolicyTree, the expressions come from a real Stream + buildHAProxyFlowsEndpointsRequest / BuildHAProxyEndpointsRequest; non-trivial = (method,url) the engine matches; distinct = (mode, pattern, method list, method, url)", len(ps))
+	r.Rule = fmt.Sprintf("%d URL patterns (hosts with dots, host/path parameters incl. a dotted name, trailing wildcard, literals containing each of + ? ( ) [ ] | $ ^ \\ {n}) x method lists {none,[GET],[GET,POST]} (flows) / each declared method (policies) x every instantiation of the pattern (parameter values x, x.y, a+b, 7; wildcard tails '', /t, /t/u.v) x 7 request methods; the engine's verdict is the real FilterTree / EndpointPolicyTree, the expressions come from a real Stream + buildHAProxyFlowsEndpointsRequest / BuildHAProxyEndpointsRequest; non-trivial = (method,url) the engine matches; distinct = (mode, pattern, method list, method, url); reload family: every history of length <=5 (flows mode <=4) over {reload to configuration A|B|C|G, clock step 10 s, 31 s} through the real reload path against an in-process model of the proxy's managed-endpoint map: after every step the traffic the current configuration handles must be covered by what the proxy has registered at that moment", len(ps))
 	r.Assume("haproxy's map_reg regex engine agrees with Go RE2 on the generated expressions (an expression that does not compile is reported)",
 		"only the nine standard HTTP methods are considered")
 	if r.Parallel(t, 16) {
@@ -421,5 +426,6 @@ func TestCheck(t *testing.T) {
 			}
 		}
 	}
+	reloadFamily(t, r)
 	r.Finish(t)
 }
